@@ -1,13 +1,10 @@
 //! Tracer installed into triomphe's verification hook: logs every count operation.
 
 use crate::ev::{Ev, LOG};
-use std::cell::Cell;
 use std::sync::atomic::{AtomicBool, Ordering as O};
 use triomphe::verif_hook as hook;
 
-thread_local! {
-    pub static TID: Cell<u32> = const { Cell::new(0) };
-}
+pub use crate::ev::TID;
 /// serialise each count operation together with its log entry (threaded runs): the log
 /// order is then the modification order of every count
 pub static SERIALISE: AtomicBool = AtomicBool::new(false);
@@ -33,8 +30,104 @@ pub fn ord_code(o: hook::Ordering) -> u8 {
     }
 }
 
+/// in threaded runs: give the other threads a chance right before every k-th count operation, so that
+/// windows between two operations of one call get visited
+pub static YIELD_EVERY: std::sync::atomic::AtomicUsize = std::sync::atomic::AtomicUsize::new(0);
+static OPS_SEEN: std::sync::atomic::AtomicUsize = std::sync::atomic::AtomicUsize::new(0);
+
+// ---- seeded cooperative scheduler (threaded runs): exactly one participating thread runs at a time;
+// at every scheduling point (each count operation, each payload access) the next thread to run is
+// drawn from the live ones with a seeded generator. Interleavings are therefore uniform at the grain
+// of single count operations, and reproducible from the seed.
+pub static SCHED_ON: AtomicBool = AtomicBool::new(false);
+static TURN: std::sync::atomic::AtomicU32 = std::sync::atomic::AtomicU32::new(0);
+static ALIVE: std::sync::atomic::AtomicU32 = std::sync::atomic::AtomicU32::new(0);
+static RNG: std::sync::atomic::AtomicU64 = std::sync::atomic::AtomicU64::new(1);
+
+fn draw() -> u64 {
+    let mut x = RNG.load(O::Relaxed);
+    x ^= x << 13;
+    x ^= x >> 7;
+    x ^= x << 17;
+    RNG.store(x, O::Relaxed);
+    x
+}
+fn pick_next() {
+    let alive = ALIVE.load(O::SeqCst);
+    if alive == 0 {
+        TURN.store(0, O::SeqCst);
+        return;
+    }
+    let n = alive.count_ones() as u64;
+    let mut k = draw() % n;
+    for t in 0..32u32 {
+        if alive & (1 << t) != 0 {
+            if k == 0 {
+                TURN.store(t, O::SeqCst);
+                return;
+            }
+            k -= 1;
+        }
+    }
+}
+pub fn sched_start(seed: u64, tids: &[u32]) {
+    RNG.store(seed | 1, O::SeqCst);
+    let mut m = 0u32;
+    for t in tids {
+        m |= 1 << t;
+    }
+    ALIVE.store(m, O::SeqCst);
+    SCHED_ON.store(true, O::SeqCst);
+    pick_next();
+}
+/// called by a participating thread: hand the turn to a drawn live thread and wait for one's own
+pub fn sched_point() {
+    if !SCHED_ON.load(O::Relaxed) {
+        return;
+    }
+    let me = TID.with(|t| t.get());
+    if ALIVE.load(O::SeqCst) & (1 << me) == 0 {
+        return;
+    }
+    if TURN.load(O::SeqCst) == me {
+        pick_next();
+    }
+    let mut spins = 0u32;
+    while TURN.load(O::SeqCst) != me {
+        spins += 1;
+        if spins % 64 == 0 {
+            std::thread::yield_now();
+        } else {
+            std::hint::spin_loop();
+        }
+    }
+}
+/// a participating thread waits for its first turn
+pub fn sched_enter() {
+    let me = TID.with(|t| t.get());
+    while SCHED_ON.load(O::SeqCst) && TURN.load(O::SeqCst) != me {
+        std::thread::yield_now();
+    }
+}
+/// a participating thread is done: leave and pass the turn on
+pub fn sched_leave() {
+    let me = TID.with(|t| t.get());
+    ALIVE.fetch_and(!(1 << me), O::SeqCst);
+    if TURN.load(O::SeqCst) == me {
+        pick_next();
+    }
+}
+pub fn sched_stop() {
+    SCHED_ON.store(false, O::SeqCst);
+}
+
 fn pre(_e: &hook::Event) {
     if SERIALISE.load(O::Relaxed) {
+        sched_point();
+        let k = YIELD_EVERY.load(O::Relaxed);
+        if k != 0 && OPS_SEEN.fetch_add(1, O::Relaxed) % k == 0 {
+            std::thread::yield_now();
+        }
         LOG.lock();
     }
 }
